@@ -12,6 +12,9 @@ CLAIMS = {
  "C03": ("TLC validates every add/sub/neg/double/xdouble/mul_small call recorded on 8 group types (edwards25519, edwards448, P-256, secp256k1, ristretto255, decaf448, jq255e, jq255s) against the affine group law written from the curve equations (Curves.tla, Quotients.tla): low-order and special points against themselves, their opposites, the neutral and generic points, plus seeded random programs re-using results.", TV),
  "C04": ("TLC recomputes [k]P by double-and-add on the affine law for every recorded mul/mulgen call: boundary scalars, signed-digit carry patterns, endomorphism-split word-boundary scalars derived from the lattice of the split, and single-digit scalars selecting each precomputed table entry in isolation.", TV),
  "C06": ("TLC validates decode acceptance and value, encode, equals, isneutral and the byte-to-group maps against RFC 8032 / SEC1 / RFC 9496 / documented jq255 codecs in TLA+ on systematically malformed candidate strings of all lengths, and on representatives of the same element reached through different computations.", TV),
+ "C07": ("TLC recomputes every verify_raw/ctx/ph verdict with the strict cofactored RFC 8032 predicate (EdDSA.tla, with SHA-512 / SHAKE256 in TLA+) and every signature / public key byte-exactly, on honest and adversarially constructed inputs (torsion components in A and R, S >= L, non-canonical and small-order encodings).", TV),
+ "C08": ("TLC recomputes every ECDSA verification verdict (ECDSA.tla) and every signature byte-exactly (RFC 6979 HMAC-SHA-256 nonce with extra input for P-256, documented SHA-512 nonce for secp256k1) over key, hash-length, extra-randomness and signature range/length lattices.", TV),
+ "C14": ("TLC recomputes X25519 / X448 (RFC 7748 ladder in XDH.tla) for low-order, twist, non-canonical and random u-coordinates and boundary scalars, and the base-point variants against the same specification value.", TV),
  "C10": ("TLC validates u*P+v*G, the 128-bit multiplier variant and the verification helpers (relationally: [c](sG - R - kQ) = 0) on boundary multipliers and fraction-shaped challenges; panics are rejected as non-transitions.", TV),
  "C05": ("TLC validates every decode_ct/decode32/decode/decode_reduce/encode call recorded over all lengths 0..3*ENC_LEN+1 and boundary contents against the codec operators of PrimeField.tla.", TV),
  "C11": ("TLC checks the relational split contract (k*c1'=c0' mod q with the documented correction, (0,1) for zero) on every recorded split_vartime call, including fraction-shaped and unbalanced scalars; non-termination is observed by a per-call watchdog and rejected as a non-transition.", "TLA+ relational spec + TLC trace validation; watchdog for termination"),
